@@ -1359,6 +1359,8 @@ pub fn main(args: &Args) {
             // expression, the moved child starts before the running templated index: `start - templated_idx`
             // underflowed (debug builds: fix panicked). The file written is still wrong: known finding out-of-order.
             ("ansi", "all", "SELECT :b :: int, cast(a as int) FROM t\n", Some(("colon", vec![("b", "1")]))),
+            // same repair, seen without overflow checks: the wrapped subtraction emitted an extra gap patch (29..29) here
+            ("snowflake", "all", "SELECT DISTINCT TOP :p col1, t.* FROM t;\n", Some(("colon", vec![("p", "40")]))),
         ] {
             items.push(Item {
                 cls: "regression",
